@@ -3,6 +3,21 @@
 
 package log
 
+import "os"
+
 // VerifExit is what the normalised Panic* helpers panic with instead of calling os.Exit(1)
 // (build normalisation N2 of /verif/DESIGN.md), so that an abort is an observable outcome.
 type VerifExit struct{}
+
+// VerifExitNow: a child process of the harness that wants exactly what the tool does — the process ends where Panic* was
+// called, no deferred call of the calling goroutine runs (a deferred close(channel) would otherwise let the consumer go on
+// for a moment as if the producer had finished) — sets this; the parent recognises the exit by the word on stderr.
+var VerifExitNow bool
+
+func verifExit() {
+	if VerifExitNow {
+		os.Stderr.WriteString("VerifExit\n")
+		os.Exit(3)
+	}
+	panic(VerifExit{})
+}
